@@ -249,13 +249,18 @@ def when_of(entries, idx):
 
 
 # ------------------------------------------------------------------------------------------------ plans and cases
-def mk_plan(ctx, kinds, variant, large_decoys, envs=None, init_size="small"):
+def mk_plan(ctx, kinds, variant, large_decoys, envs=None, init_size="small", big=None):
+    """big: index of the one operation that must store megabytes (all others small), or None: sizes alternate"""
     ops = []
     for j, k in enumerate(kinds, start=1):
         size = "large" if (j + variant) % 2 == 0 else "small"
+        if big is not None:
+            size = "large" if j == big else "small"
         o = {"id": j, "kind": k, "size": size, "setter": "", "env": (envs or {}).get(j, "")}
         if k == "Partial":
             o["setter"] = SETTERS[(ctx.seed + j + variant) % 4]
+            if big is not None:
+                o["setter"] = "decoys" if j == big else SETTERS[(ctx.seed + j) % 2]      # gen / pubkey keep the size
             if o["setter"] != "decoys":
                 o["size"] = ""
         ops.append(o)
@@ -742,6 +747,11 @@ def env_faults(ctx, rn, ver, cases, large_decoys, traces_inj, distinct):
             i, step, k, e = c["fails"][0]
             index.setdefault((tuple(c["kinds"]), i, step, k), c)
     envs = [("movedir", "create", 0, False), ("filedir", "create", 0, False), ("rodir", "create", 0, True), ("fsize", "write", 1, False)]
+    try:
+        import pwd
+        pwd.getpwnam("nobody")
+    except Exception:
+        envs = [e for e in envs if e[0] != "rodir"]       # no unprivileged account to run the child as
     # privileged mechanisms, used when this sandbox allows them (probed; otherwise recorded as not exercised)
     priv = probe_privileged(ctx)
     st["privileged_mechanisms"] = priv
@@ -759,14 +769,11 @@ def env_faults(ctx, rn, ver, cases, large_decoys, traces_inj, distinct):
                 if kinds[i - 1] == "BadMarshal":
                     continue
                 if env in ("fsize", "tmpfs_full"):
-                    # needs a multi-megabyte store at op i (for the full file system: as the last operation, since the
-                    # left-over temp file keeps the file system full)
+                    # needs a multi-megabyte store at op i and small ones elsewhere (for the full file system: as the last
+                    # operation, since the left-over temp file keeps the file system full)
                     if env == "tmpfs_full" and i != 3:
                         continue
-                    variant = i % 2
-                    pl = mk_plan(ctx, list(kinds), variant, large_decoys, envs={} if env == "tmpfs_full" else {i: env})
-                    if pl["ops"][i - 1]["size"] != "large" or any(o["size"] == "large" for o in pl["ops"][:i - 1]):
-                        continue
+                    pl = mk_plan(ctx, list(kinds), 0, large_decoys, envs={} if env == "tmpfs_full" else {i: env}, big=i)
                 else:
                     pl = mk_plan(ctx, list(kinds), (ctx.seed + n) % 2, large_decoys, envs={i: env})
                 c = index.get((kinds, i, step, k if k is not None else 1))
@@ -827,7 +834,7 @@ def env_faults(ctx, rn, ver, cases, large_decoys, traces_inj, distinct):
     st["runs"] += 1
     st["kinds"]["rmdir:" + rep[1]["errno"]] = 1
     rn.done(res)
-    need = {"movedir", "filedir", "rodir", "fsize"} | ({"tmpfs_full", "rofs"} if priv["tmpfs"] else set()) | ({"immutable"} if priv["chattr"] else set())
+    need = {e[0] for e in envs if e[0] in ("movedir", "filedir", "rodir", "fsize")} | ({"tmpfs_full", "rofs"} if priv["tmpfs"] else set()) | ({"immutable"} if priv["chattr"] else set())
     have = {k.split(":")[0] for k in st["kinds"]}
     if need - have and not ctx.violations:
         raise vlib.InfraError("environment faults not exercised: %s" % (need - have))
